@@ -91,6 +91,13 @@ CHECKS = {
             "tree must contain no jump statement and every plain statement of the source exactly once.",
             "'any headers' read as: every switch header kind with the case header kinds it takes (DESIGN.md 7).",
             "DESIGN.md 3/C13"),
+    "C09": ("exploration",
+            "runtime monitoring: offline checker over the recorded (text, source map) of both real decompilers: tree positions via T2A, recompile clause via the product pairing",
+            "For every well-formed routine set of the workload the (text, map) pair the real convert() returns is checked entry by "
+            "entry: key is an input offset, the position is the start of the statement printed for that op (identified on the "
+            "parse tree), every own statement has an entry, and after compiling the text the paired op is on the same line.",
+            "Trusts T2A positions (ANTLR token positions of the repo grammar) and the op pairing of the lock-step product.",
+            "DESIGN.md 3/C09"),
 }
 
 NOT_YET = {
